@@ -4,11 +4,22 @@ backend).  None of them is listed in /verif/known_findings.json (C09 restricts i
 factor-wise rules are identities, so it never reports 1 - 3).
 
 TLC side: the statements WITHOUT their domain restriction (PowKronSoundEverywhere, UnaryRuleSoundEverywhere,
-PowIntCompleteEverywhere, EigRuleSoundEverywhere of MC_UnaryEigRules; AutoOptsForward of MC_AutoChoice) are VIOLATED:
-the rule, transcribed literally, is not an identity under the guard the code uses (none).  Conformance shows that the
-real code returns exactly the model's wrong value / raises the model's exception, so the defect is the code's.
+PowIntCompleteEverywhere, EigRuleSoundEverywhere of MC_UnaryEigRules; AutoOptsForward of MC_AutoChoice) were VIOLATED:
+the rule, transcribed literally, is not an identity under the guard the code uses (none).  Conformance showed that the
+real code returned exactly the model's wrong value / raised the model's exception, so the defect is the code's.
+
+STATUS (/repo HEAD 32ca66c):
+  1. pow(Kronecker, non-integer) without domain guard .......... OPEN  (recorded; witness PowKronSoundEverywhere)
+  2. pow(Kronecker) recursing into non-square factors .......... FIXED 32ca66c (conditional rule; mutant PowKronNoSquareGuard)
+  3. apply_unary(f, Adjoint(A)) for f with non-real coefficients  FIXED 415da5a (fbar(z) = conj f(conj z); mutant UnaryAdjointNoConj)
+  4. Auto options forwarded verbatim to PowerIteration ......... FIXED 00e9d62 (renamed + filtered; mutant EigPowerForwardAll)
+  5. eig(A, k=0, 'LM') returns the whole spectrum .............. OPEN  (recorded; witness EigRuleSoundEverywhere)
+  6. deviations of the Auto selection from its documentation .... OPEN  (recorded in AutoChoice.tla, not wrong answers)
+The script prints every item and exits 0 iff the FIXED items (2, 3, 4) behave correctly on the current tree; the model
+(UnaryEigRules.tla / AutoChoice.tla) follows the fixed code: the three statements are unconditional invariants now.
 
 Run:  PYTHONPATH=/repo:/verif /venv/bin/python -B /verif/findings/unary-eig-auto-defects.py"""
+import sys
 import warnings
 
 import numpy as np
@@ -27,7 +38,16 @@ def dense(x):
     return np.asarray(x.to_dense())
 
 
-# 1. GENUINE (silent wrong answer): pow(A: Kronecker, alpha) = Kronecker(pow(M_i, alpha)) is applied for EVERY alpha.
+REGRESSED = []
+
+
+def fixed(item, ok):
+    print(f"   [{item}] {'fixed behaviour confirmed' if ok else 'REGRESSION: the fixed item misbehaves again'}")
+    if not ok:
+        REGRESSED.append(item)
+
+
+# 1. OPEN - GENUINE (silent wrong answer): pow(A: Kronecker, alpha) = Kronecker(pow(M_i, alpha)) is applied for EVERY alpha.
 #    For a non-integer alpha = p/q, prod_i lam_i^alpha = (prod_i lam_i)^alpha * exp(2 pi i k p / q), where
 #    sum_i Arg(lam_i) = Arg(prod_i lam_i) + 2 pi k: the rule is an identity iff q divides the winding number k of every
 #    tuple of factor eigenvalues (invariant PowKronDomain, an IFF; e.g. all factors but one with positive spectrum).
@@ -52,53 +72,69 @@ print("   real dtype, declared PSD    -> diag", np.diag(dense(cola.linalg.sqrt(K
 #     def pow(A: Kronecker, alpha: Number, alg: Algorithm = Auto()): ...
 # (at most one factor not declared PSD: every other eigenvalue has argument 0, the winding number is 0)
 
-# 2. GENUINE (refusal of a valid call): the same rule recurses into NON-SQUARE factors of a square Kronecker product
-#    (the defect that ccf9fbf repaired for diag / trace): integer powers and pow(., -1) raise, the generic rule works.
+# 2. FIXED 32ca66c - GENUINE (refusal of a valid call): the same rule recursed into NON-SQUARE factors of a square
+#    Kronecker product (the defect that ccf9fbf repaired for diag / trace): integer powers and pow(., -1) raised, the
+#    generic rule works.  The rule is conditional on square factors now.
 T, W = ops.Dense(np.array([[1.], [2.]])), ops.Dense(np.array([[3., 4.]]))
 K = ops.Kronecker(T, W)                                            # [[3,4],[6,8]]
+ok2 = True
 for alpha in (2, 0.5):
+    ref = dense(cola.linalg.pow(nd(K), alpha))
     try:
-        print("2. pow(Kronecker(2x1, 1x2),", alpha, ") ->", dense(cola.linalg.pow(K, alpha)).tolist())
+        got = dense(cola.linalg.pow(K, alpha))
+        print("2. pow(Kronecker(2x1, 1x2),", alpha, ") ->", np.round(got, 4).real.tolist())
+        ok2 = ok2 and bool(np.allclose(got, ref, atol=1e-8))
     except Exception as e:  # noqa: BLE001
         print("2. pow(Kronecker(2x1, 1x2),", alpha, ") raises", type(e).__name__, "-", str(e)[:60],
-              "  generic rule:", np.round(dense(cola.linalg.pow(nd(K), alpha)), 4).real.tolist())
-# proposed patch: the condition of 1. (all factors square)
+              "  generic rule:", np.round(ref, 4).real.tolist())
+        ok2 = False
+fixed("2: 32ca66c", ok2)
+# patch applied: @dispatch(cond=lambda A, *_: all(M.shape[-2] == M.shape[-1] for M in A.Ms)) on pow(A: Kronecker, ...)
 
-# 3. GENUINE (silent wrong answer, user-supplied f): apply_unary(f, Adjoint(A)) = Adjoint(apply_unary(f, A)) needs
-#    f(conj z) = conj f(z) on the spectrum.  False for a function with non-real Taylor coefficients (the docstring of
-#    apply_unary defines f(A) through the Taylor expansion, complex coefficients included) ...
+# 3. FIXED 415da5a - GENUINE (silent wrong answer, user-supplied f): apply_unary(f, Adjoint(A)) = Adjoint(apply_unary(f, A))
+#    needs f(conj z) = conj f(z) on the spectrum.  False for a function with non-real Taylor coefficients (the docstring
+#    of apply_unary defines f(A) through the Taylor expansion, complex coefficients included) ...
 f = lambda x: 1j * x                                               # noqa: E731
 D = ops.Diagonal(np.array([1., 2.], dtype=np.complex128))
-print("3. f(x) = i x;  apply_unary(f, Adjoint(diag(1,2))) -> diag", np.diag(dense(cola.linalg.apply_unary(f, ops.Adjoint(D)))).tolist(),
+got3 = np.diag(dense(cola.linalg.apply_unary(f, ops.Adjoint(D))))
+print("3. f(x) = i x;  apply_unary(f, Adjoint(diag(1,2))) -> diag", got3.tolist(),
       "   true: [1j, 2j];  no_dispatch ->", np.round(np.diag(dense(cola.linalg.apply_unary(f, nd(ops.Adjoint(D))))), 6).tolist())
+fixed("3: 415da5a", bool(np.allclose(got3, [1j, 2j])))
 #    ... and on the branch cut of sqrt / log (benign with IEEE signed zeros: conj(-1+0j) = -1-0j and np.sqrt(-1-0j) = -1j,
-#    so the value is the limit from below; listed for completeness, the model's domain excludes it):
+#    so the value is the limit from below; unchanged by the fix, the conformance harness skips such values):
 N = ops.Diagonal(np.array([-1., -4.], dtype=np.complex128))
 print("   sqrt(Adjoint(diag(-1,-4))) -> diag", np.diag(dense(cola.linalg.sqrt(ops.Adjoint(N)))).tolist(), "   principal: [1j, 2j]")
-# proposed patch (unary.py): Adjoint(A) has the decomposition (conj lam, P^H), so f(A^H) = (fbar(A))^H with
+# patch applied (unary.py): Adjoint(A) has the decomposition (conj lam, P^H), so f(A^H) = (fbar(A))^H with
 #     fbar(z) = conj(f(conj(z))):
 #     def apply_unary(f, A: Adjoint, alg):  return Adjoint(apply_unary(lambda z: xnp.conj(f(xnp.conj(z))), A.A, alg))
 
-# 4. GENUINE (crash): Auto forwards its options verbatim to the algorithm it selects, but PowerIteration spells the
-#    iteration cap `max_iter` (its docstring says max_iters) and has no start_vector: the same Auto(...) object works or
-#    raises depending on k / which (invariant AutoOptsForward of MC_AutoChoice).
+# 4. FIXED 00e9d62 - GENUINE (crash): Auto forwarded its options verbatim to the algorithm it selects, but PowerIteration
+#    spells the iteration cap `max_iter` (its docstring says max_iters) and has no start_vector: the same Auto(...) object
+#    worked or raised depending on k / which (invariant AutoOptsForward of MC_AutoChoice).  eig's Auto rule now renames
+#    max_iters and passes PowerIteration only the fields it has.
 S = ops.Dense(np.array([[2., 1.], [1., 2.]]))
+ok4 = True
 for call, th in (("eig(A, 2, 'LM', Auto(max_iters=5))", lambda: cola.linalg.eig(S, 2, "LM", Auto(max_iters=5))[0].tolist()),
                  ("eigmax(A, Auto(max_iters=5))      ", lambda: cola.linalg.eigmax(S, Auto(max_iters=5)))):
     try:
         print("4.", call, "->", th())
     except Exception as e:  # noqa: BLE001
         print("4.", call, "raises", type(e).__name__, "-", str(e)[:80])
-# proposed patch (cola/linalg/eig/power_iteration.py): rename the dataclass field max_iter -> max_iters (the docstring's
-# name; __call__ passes max_iter=self.max_iters) and let eig's Auto rule forward only the fields PowerIteration has:
-#     opts = {k: v for k, v in alg.__dict__.items() if k in ("tol", "max_iters", "pbar", "key")}
+        ok4 = False
+try:
+    cola.linalg.eigmax(S, Auto(max_iters=5, start_vector=np.ones(2), bs=3))
+except Exception as e:  # noqa: BLE001
+    print("4. eigmax(A, Auto(max_iters=5, start_vector=.., bs=3)) raises", type(e).__name__)
+    ok4 = False
+fixed("4: 00e9d62", ok4)
+# patch applied (cola/linalg/eig/eigs.py): max_iters -> max_iter, then only PowerIteration's dataclass fields are passed
 
-# 5. MINOR (surprising result): eig(A, k=0, 'LM') returns ALL n eigenvalues (get_slice: slice(-0, None) is the whole
+# 5. OPEN - MINOR (surprising result): eig(A, k=0, 'LM') returns ALL n eigenvalues (get_slice: slice(-0, None) is the whole
 #    array), eig(A, k=0, 'SM') returns none.
 print("5. eig(A, 0, 'LM') ->", cola.linalg.eig(S, 0, "LM")[0].tolist(), "   eig(A, 0, 'SM') ->", cola.linalg.eig(S, 0, "SM")[0].tolist())
 # proposed patch (decompositions.get_slice): 'LM': slice(len - num, None) with num clipped to [0, len], or reject num < 1.
 
-# 6. RECORDED DEVIATIONS of the Auto selection from its documentation / the size contract (not wrong answers):
+# 6. OPEN - RECORDED DEVIATIONS of the Auto selection from its documentation / the size contract (not wrong answers):
 #    a. apply_unary / exp / log / sqrt / pow: the docstring says "if A is Hermitian and small, use Eigh", the code tests
 #       A.isa(PSD): a declared SelfAdjoint (indefinite) operator goes through the general eigensolver Eig (small) /
 #       Arnoldi (large) - the route of known finding KF-C09-eig-repeated-eigenvalue - while eig() tests SelfAdjoint;
@@ -111,3 +147,7 @@ print("5. eig(A, 0, 'LM') ->", cola.linalg.eig(S, 0, "LM")[0].tolist(), "   eig(
 H = cola.SelfAdjoint(ops.Dense(np.array([[1., 2.], [2., -1.]])))
 print("6a. exp(SelfAdjoint(dense)) ->", type(cola.linalg.exp(H)).__name__, "(Product[Dense, Diagonal, TriangularInv, TriangularInv, "
       "Permutation] = the Eig route; PSD-declared operands get Product[Dense, Diagonal, Dense] = Eigh)")
+
+if REGRESSED:
+    print("REGRESSED:", REGRESSED)
+sys.exit(1 if REGRESSED else 0)
